@@ -193,7 +193,7 @@ func ruleR22() *Rule {
 			if ivi != nil {
 				var loadArg, decArg ssa.Value
 				for _, cs := range callSites(ivi) {
-					if f := staticCallee(cs); f != nil && f.Name() == "loadOrCreate" && len(cs.Common().Args) > 1 {
+					if f := staticCallee(cs); f != nil && namedFn(f, "vectorIndexCache.loadOrCreate") && len(cs.Common().Args) > 1 {
 						loadArg = cs.Common().Args[1]
 					}
 				}
@@ -342,7 +342,7 @@ func ruleR22() *Rule {
 					r := root(iv)
 					if ex, ok := r.(*ssa.Extract); ok {
 						if call, ok := ex.Tuple.(*ssa.Call); ok {
-							if f := call.Call.StaticCallee(); f != nil && (f.Name() == "loadOrCreate" || f.Name() == "loadFromCache" || f == load || f == cac) {
+							if f := call.Call.StaticCallee(); f != nil && (namedFn(f, "vectorIndexCache.loadOrCreate") || namedFn(f, "vectorIndexCache.loadFromCache") || f == load || f == cac) {
 								cached = true
 							}
 						}
